@@ -1727,6 +1727,9 @@ class MessageMap : public MappedFileReader {
   /** the known @a Message instances to poll, by priority. */
   MessagePriorityQueue m_pollMessages;
 
+  /** the removed @a Message instances (kept until cleared as still potentially in use by another thread). */
+  vector<Message*> m_removedMessages;
+
   /** the @a Condition instances by filename and condition name. */
   map<string, Condition*> m_conditions;
 
